@@ -70,6 +70,20 @@ def world(rng, i):
     if len(stream) > 2500:
         stream, orcs, ends = requests(rng)
     evs, arrived = [], 0
+    if ends and rng.random() < 0.4:
+        # orderly: every request arrives with 0, 1 or 2 bytes of what follows it, is read to its end, the HTTP layer reads on
+        # (the byte it reads ahead while the request is handled), a handler may accept, the response ends
+        for e in ends:
+            k = e - arrived + rng.choice([0, 1, 1, 2])
+            if k > 0:
+                evs.append("A%d" % k)
+                arrived += k
+            evs += ["R%d" % rng.choice([4096, 4096, 512]) for _ in range(rng.randrange(2, 6))] + ["R1"]
+            if rng.random() < 0.3:
+                evs += ["V", "R1", "A3", "R4096"]
+            evs.append("D")
+        evs += ["A10000", "R4096", "R4096"]
+        return {"id": "pw%d" % i, "kind": "world", "line": "pw %s %s %s" % (stream.hex(), ",".join(evs), ",".join(orcs)), "meta": {"kind": "world"}}
     pv = rng.choice([0.0, 0.02, 0.05])
     for _ in range(rng.randrange(5, 70)):
         r = rng.random()
